@@ -4,7 +4,7 @@
 # then runs the named checks against the patched tree (VERIF_REPO) and reports whether each raises VIOLATION.
 D=$1; shift; TIER=$1; shift
 N=$(basename $D)
-WT=/tmp/seedverify_$N; OUT=/tmp/seedverify_out_$N
+WT=/tmp/seedverify_${N}_$$; OUT=/tmp/seedverify_out_${N}_$$
 rm -rf $OUT; mkdir -p $OUT
 git -C /repo worktree remove --force $WT 2>/dev/null
 git -C /repo worktree add -q $WT HEAD || exit 9
